@@ -193,6 +193,30 @@ pub fn run(ctx: &mut Ctx) {
             }
         }
     }
+    // bounds whose text is around MAX_LENGTH (a range has no length limit; a version does):
+    // the answer and the candidates next to such a bound may not be parseable, which is not
+    // a reason to skip them
+    ctx.stratum("ML-bounds-around-max-length", true);
+    for len in [200usize, 240, 247, 248, 249, 250, 251, 252, 253, 254, 255, 256, 257, 300, 1000] {
+        if !ctx.take() {
+            continue;
+        }
+        for tag in ["a".repeat(len), format!("{}.0", "a".repeat(len.saturating_sub(2).max(1))), "7".repeat(len.min(19)) + &".rc".repeat(len / 3)] {
+            for t in [
+                format!(">1.0.0-{}", tag),
+                format!(">=1.0.0-{}", tag),
+                format!(">1.0.0-{} <1.0.0-b", tag),
+                format!(">=2.0.0 || >1.0.0-{} <1.5.0", tag),
+                format!("<1.0.0-{}", tag),
+                format!("<=1.0.0-{} >0.9.9", tag),
+                format!(">1.0.0-{}+{}", tag, "b".repeat(20)),
+            ] {
+                if let Some(op) = operand_from_text(&t) {
+                    judge(ctx, &op);
+                }
+            }
+        }
+    }
     ctx.stratum("T-bound-kind-table", true);
     for iv in &tiv {
         if ctx.take() {
